@@ -134,6 +134,12 @@ def inputs_for(tier: str, rng) -> list[tuple[bytes, int]]:
             if url[n:n + 1] == b"0":
                 data.append(bytes(9) + bytes([n]) + url)
                 data.append(b"\x01\x02\x03\x04\x05\x06\x07\x08\x0e\x0f" + bytes([n]) + url + b" tail")
+    # %uXXXX escapes (JavaScript unescape): every plane boundary and the surrogate range, both hex cases, truncated forms
+    for cp in (0x0, 0x41, 0x7f, 0x80, 0xff, 0x100, 0x7ff, 0x800, 0xd7ff, 0xd800, 0xd9eb, 0xdbff, 0xdc00, 0xdfff, 0xe000, 0xfffe, 0xffff):
+        for fmt in (b"%%u%04x", b"%%u%04X", b"%%U%04x"):
+            e = fmt % cp
+            data += [b"unescape('" + e + b"')", b"unescape(\"a" + e + e + b"b\")", b"x = unescape('%41" + e + b"%zz');"]
+    data += [b"unescape('%u')", b"unescape('%u12')", b"unescape('%u12g4')", b"unescape('%ud800%udc00')", b"unescape('%udc00%ud800')"]
     # percent-escapes inside a bracketed host, the userinfo, the port (normalisation rewrites them before the URL is parsed)
     for host in (b"[1::ffff]", b"[::1]", b"[2001:db8::10]", b"[v1.a]", b"[::ffff:1.2.3.4]", b"1.2.3.4", b"a.example.com", b"[fe80::1%25eth0]"):
         for esc in (b"%41", b"%3A", b"%3a", b"%5D", b"%5B", b"%25", b"%30", b"%2E", b"%2f", b"%40", b"%7E", b"%00", b"%g1", b"%"):
